@@ -121,55 +121,55 @@ func searchFieldId(p *binary.BinaryProtocol, id proto.FieldNumber, messageLen in
 // packed: if idx is found, return the element[V] value start position, otherwise return the end of p.Buf
 // unpacked: if idx is found, return the element[TLV] tag position, otherwise return the end of p.Buf
 func searchIndex(p *binary.BinaryProtocol, idx int, elementWireType proto.WireType, isPacked bool, fieldNumber proto.FieldNumber) (int, error) {
-	// packed list
 	cnt := 0
-	result := p.Read
 	if isPacked {
-		// read length
+		// packed list: [tag][length][value][value]...., p.Read points to the length
 		length, err := p.ReadLength()
 		if err != nil {
 			return 0, err
 		}
-		// read list
-		start := p.Read
-		for p.Read < start+length && cnt < idx {
+		end := p.Read + length
+		for p.Read < end && cnt < idx {
 			if err := p.Skip(elementWireType, false); err != nil {
 				return 0, errNode(meta.ErrRead, "searchIndex: skip packed list element error.", err)
 			}
 			cnt++
 		}
-		result = p.Read
-	} else {
-		// normal Type : [tag][(length)][value][tag][(length)][value][tag][(length)][value]....
-		for p.Read < len(p.Buf) && cnt < idx {
-			// don't move p.Read and judge whether readList completely
-			if err := p.Skip(elementWireType, false); err != nil {
-				return 0, errNode(meta.ErrRead, "searchIndex: skip unpacked list element error.", err)
-			}
-			cnt++
-			if p.Read < len(p.Buf) {
-				// don't move p.Read and judge whether readList completely
-				elementFieldNumber, _, n, err := p.ConsumeTagWithoutMove()
-				if err != nil {
-					return 0, err
-				}
-				if elementFieldNumber != fieldNumber {
-					break
-				}
-				if cnt < idx {
-					p.Read += n
-				}
-				result = p.Read + n
-			}
+		if idx < 0 || p.Read >= end {
+			// idx is not less than the number of elements
+			return p.Read, errNotFound
 		}
-
+		return p.Read, nil
 	}
 
-	if cnt < idx {
+	// normal Type : [tag][(length)][value][tag][(length)][value][tag][(length)][value]....
+	// the tag of the first element has been consumed by the caller
+	tagLen := protowire.SizeVarint(uint64(fieldNumber)<<3 | uint64(elementWireType))
+	if idx < 0 {
 		return p.Read, errNotFound
 	}
-
-	return result, nil
+	for cnt < idx {
+		if err := p.Skip(elementWireType, false); err != nil {
+			return 0, errNode(meta.ErrRead, "searchIndex: skip unpacked list element error.", err)
+		}
+		cnt++
+		if p.Read >= len(p.Buf) {
+			return p.Read, errNotFound
+		}
+		// don't move p.Read and judge whether readList completely
+		elementFieldNumber, _, n, err := p.ConsumeTagWithoutMove()
+		if err != nil {
+			return 0, err
+		}
+		if elementFieldNumber != fieldNumber {
+			return p.Read, errNotFound
+		}
+		p.Read += n
+		tagLen = n
+	}
+	// found: step back to the tag of the element
+	p.Read -= tagLen
+	return p.Read, nil
 }
 
 // searchIntKey in MAP Node
